@@ -37,22 +37,10 @@ Theorem C07_decodes :
         decode_at (scr t') (Z.to_nat W) (Z.to_nat x) y = expected_at H p (origin_x st t0) (origin_y st t0) x y.
 Proof.
   intros W H id pid c0 r0 c1 r1 m st t0 HW HH Hid Hpid Hc Hr Hc0 Hm p Hs Hf Hb.
-  exact (stream_decodes_all W H HW HH st p m BNone t0 (conj Hid (conj Hpid (conj Hc (conj (proj1 Hr) Hc0)))) Hm Hs Hf Hb).
+  exact (stream_decodes_all W H HW HH st p m BNone t0 (conj Hid (conj Hpid (conj Hc (conj (proj1 Hr) Hc0))))
+           (or_intror (proj2 Hr)) Hm Hs Hf Hb).
 Qed.
 Print Assumptions C07_decodes.
-
-(* the same for every rectangle (rows >= 297 are printed as blanks and decode to nothing) and every
-   background-only formatting (bytes / per-row function / per-cell function), cf. C13 *)
-Theorem C07_decodes_formatted :
-  forall (W H : Z) (p : placeholder) (m : mode) (b : bgfmt) (st : style) (t0 : term),
-    (0 < W)%Z -> (0 < H)%Z -> rect_ok p -> mode_ok m ->
-    start_ok W H t0 -> fits W H st t0 (width p) (height p) -> (forall y x, scr t0 y x = blank_cell) ->
-    exists ws, stream_of st p m (fmt_of b) = Ok ws /\
-      let t' := feed W H t0 (wire st (concat ws)) in
-      forall x y, (0 <= x < W)%Z -> (0 <= y < H)%Z ->
-        decode_at (scr t') (Z.to_nat W) (Z.to_nat x) y = expected_at H p (origin_x st t0) (origin_y st t0) x y.
-Proof. intros W H p m b st t0 HW HH. exact (stream_decodes_all W H HW HH st p m b t0). Qed.
-Print Assumptions C07_decodes_formatted.
 
 (* non-vacuity: a 3 x 2 rectangle of image 0x01000102 printed with save/restore from the bottom row of
    a 6 x 2 screen scrolls one line; the hypotheses hold and the decoder sees row 1, column 2 at (x,y) = (3,1) *)
